@@ -594,7 +594,7 @@ M("C13", "scale-in-place-buffer", _MPF, "        new_mp[self.qnidx] = new_mp[sel
 
 _FIX_EXPECT = {1: ("C03", ["qn-align"]), 2: ("C03", ["qn-charge"]), 3: ("C10", ["evolve"]), 4: ("C13", ["effect-bound", "TTNS.evolve"]), 5: ("C13", ["compressed_sum"]),
                6: ("C15", ["array-truth"]), 7: ("C16", ["sho-product"]), 8: ("C16", ["copy-forward"]), 9: ("C14", ["crash-points"]), 10: ("C09", ["krylov-hermitian"]),
-               11: ("C08", ["heff-network"]), 12: ("C09", ["adaptive-reject"]), 13: ("C17", ["jw-vocabulary"]), 14: ("C10", ["midpoint-reentry"]), 15: ("C10", ["thermal-hamiltonian"]), 16: ("C09", ["entry-gauge"]), 17: ("C07", ["rdm-network"]), 18: ("C17", ["out-ops-shape"]), 19: ("C16", ["factor-applied"])}
+               11: ("C08", ["heff-network"]), 12: ("C09", ["adaptive-reject"]), 13: ("C17", ["jw-vocabulary"]), 14: ("C10", ["midpoint-reentry"]), 15: ("C10", ["thermal-hamiltonian"]), 16: ("C09", ["entry-gauge"]), 17: ("C07", ["rdm-network"]), 18: ("C17", ["out-ops-shape"]), 19: ("C16", ["factor-applied"]), 20: ("C01", ["qr-shortcut-shape"])}
 for _f in sorted(_os.listdir(_os.path.join(_V, "renostat", "selftest_patches"))):
     if _f.startswith("fix-"):
         _n = int(_f.split("-")[1])
